@@ -98,6 +98,37 @@ def chk_equal(a, b):
         return False
 
 
+REPLAY_ENTRY = '''
+def replay():
+    """native: runcards.masses on a real theory card (MSbar scheme, xif = 1.7) must hand compute() the card's own settings"""
+    from eko.io import runcards as rcm
+    from eko.io.types import EvolutionMethod
+    from eko.couplings import couplings_mod_ev
+    from eko.quantities.heavy_quarks import QuarkMassScheme
+    from ekobox import cards
+    th = cards.example.theory()
+    th.order, th.xif = (3, 0), 1.7
+    th.heavy.masses_scheme = QuarkMassScheme.MSBAR
+    th.heavy.matching_ratios.c, th.heavy.matching_ratios.b, th.heavy.matching_ratios.t = 0.7, 1.3, 1.9
+    rec = {}
+    def recorder(masses_ref, couplings, order, evmeth, matching, xif2=1.0):
+        rec.update(masses_ref=masses_ref, couplings=couplings, order=tuple(order), evmeth=evmeth, matching=list(matching), xif2=xif2)
+        return np.array([2.0, 20.0, 30000.0])
+    saved = rcm.msbar_masses.compute
+    rcm.msbar_masses.compute = recorder
+    try:
+        rcm.masses(th, EvolutionMethod.TRUNCATED)
+    finally:
+        rcm.msbar_masses.compute = saved
+    out = []
+    if abs(rec.get("xif2", 0) - 1.7 ** 2) > 1e-12: out.append(f"compute() received xif2 = {rec.get('xif2')} for a card with xif = 1.7")
+    if [round(m, 12) for m in rec.get("matching", [])] != [round(k * k, 12) for k in (0.7, 1.3, 1.9)]: out.append(f"matching ratios handed over: {rec.get('matching')}")
+    if rec.get("masses_ref") is not th.heavy.masses or rec.get("couplings") is not th.couplings or rec.get("order") != (3, 0) or rec.get("evmeth") != couplings_mod_ev(EvolutionMethod.TRUNCATED):
+        out.append("reference masses / couplings / order / method are not the card's")
+    return bool(out), "; ".join(out) if out else "runcards.masses hands compute() the settings of the card"
+'''
+
+
 def run(chk):
     from eko import msbar_masses as mm
     from pyvc import bounded
@@ -301,6 +332,54 @@ def run(chk):
     finally:
         mm.ker_dispatcher = skd
 
+    # ---- (e) the entry point the runner uses: runcards.masses hands compute() the card's own settings -------------------------------------------------
+    # "with the same coupling, order and matching ratios" (and scale ratio xif): the masses the runner works with are those of compute() for the theory card's
+    # reference masses, coupling reference, order, coupling evolution method, SQUARED matching ratios and xif^2 -- every argument is compared, compute() itself is
+    # replaced by a recorder.  POLE scheme: the squared masses of the card.
+    from eko.io import runcards as rcm
+    from eko.couplings import couplings_mod_ev
+    from eko.io.types import EvolutionMethod
+    from eko.quantities.heavy_quarks import QuarkMassScheme
+    fne = "eko.io.runcards:masses"
+    chk.under_contract(fne)
+    rp_main, rp = rp, script(REPLAY_ENTRY, kind="entry_point_oracle")
+
+    class _Box:
+        pass
+
+    for evm in (EvolutionMethod.ITERATE_EXACT, EvolutionMethod.TRUNCATED, EvolutionMethod.ITERATE_EXPANDED):
+        for xif in (1.0, 1.7, 0.6):
+            th = _Box()
+            th.heavy, th.couplings, th.order, th.xif = _Box(), _Box(), (3, 0), xif
+            th.heavy.masses_scheme, th.heavy.masses, th.heavy.matching_ratios = QuarkMassScheme.MSBAR, [_Box(), _Box(), _Box()], [0.7, 1.3, 1.9]
+            rec = {}
+
+            def recorder(masses_ref, couplings, order, evmeth, matching, xif2=1.0, rec=rec):
+                rec.update(masses_ref=masses_ref, couplings=couplings, order=order, evmeth=evmeth, matching=list(matching), xif2=xif2)
+                return np.array([2.0, 20.0, 30000.0])
+
+            saved_c = rcm.msbar_masses.compute
+            rcm.msbar_masses.compute = recorder
+            try:
+                out = rcm.masses(th, evm)
+            finally:
+                rcm.msbar_masses.compute = saved_c
+            close = lambda a, b: abs(float(a) - float(b)) <= 1e-14 * abs(float(b))  # noqa: E731
+            tage = f"C18.entry_point[{evm.value},xif={xif}]"
+            chk.ground(f"{tage}.card_settings_handed_to_compute", bool(rec) and rec["masses_ref"] is th.heavy.masses and rec["couplings"] is th.couplings and tuple(rec["order"]) == (3, 0)
+                       and rec["evmeth"] == couplings_mod_ev(evm) and len(rec["matching"]) == 3 and all(close(m, k * k) for m, k in zip(rec["matching"], th.heavy.matching_ratios)),
+                       fn=fne, replay=rp, goal="compute() receives the card's reference masses, coupling reference, order, coupling evolution method and the squared matching ratios", detail=str({k: v for k, v in rec.items() if k in ("order", "evmeth", "matching")}))
+            chk.ground(f"{tage}.scale_ratio_handed_to_compute", bool(rec) and close(rec["xif2"], xif * xif), fn=fne, replay=rp, goal="compute() receives xif^2 of the card", detail=f"xif2 = {rec.get('xif2')}")
+            chk.ground(f"{tage}.result_returned", [float(v) for v in out] == [2.0, 20.0, 30000.0], fn=fne, replay=rp, goal="the squared masses computed are returned unchanged")
+    thp = _Box()
+    thp.heavy = _Box()
+    thp.heavy.masses_scheme = QuarkMassScheme.POLE
+    thp.heavy.masses = [_Box(), _Box(), _Box()]
+    for q_, v_ in zip(thp.heavy.masses, (1.51, 4.92, 172.5)):
+        q_.value = v_
+    chk.ground("C18.entry_point[pole].squared_card_masses", [float(v) for v in rcm.masses(thp, EvolutionMethod.TRUNCATED)] == [1.51 ** 2, 4.92 ** 2, 172.5 ** 2], fn=fne, replay=rp, goal="pole scheme: the squared masses of the card")
+
+    rp = rp_main
     # ---- (b) bounded ----------------------------------------------------------------------------------------------------------------------------------
     n = bounded.run_native(chk, "C18_native.py", backend="deal-runtime(bounded)")
     chk.extra["bounded_contract_evaluations"] = n
